@@ -20,6 +20,9 @@
 // gives for that configuration), the shorter output of the subset configuration, a long foreign
 // file and a minimal one with the right package clause.
 //
+// Every chain of generations (regular / stale history, in one process / through the CLI) works
+// on its own copy of the package directory, so all chains run concurrently.
+//
 // One process must also not carry state from one PACKAGE to the next: "twin" genum packages
 // declare equally named parsable trait types with different method sets (one decodes itself from
 // JSON/text, the other does not) and are generated in one worker process in both orders; their
@@ -562,7 +565,8 @@ type job struct {
 	Pkg     string   `json:"pkg"`
 	Args    []string `json:"args"`
 	SubArgs []string `json:"sub_args,omitempty"` // the same definition with its first type only
-	Stale   bool     `json:"stale"`              // run the stale-output sequence in-process too
+	Steps   []step   `json:"steps"`              // this chain's history
+	Chain   string   `json:"chain"`              // which chain of the definition this job is
 	Outs    string   `json:"outs"`               // where distinct outputs are kept (for the replay's diff)
 }
 
@@ -572,16 +576,19 @@ type obs struct {
 	Cfg   string `json:"cfg"`   // full|sub
 	Sha   string `json:"sha"`   // sha256 of the output file, "" if none
 	Err   string `json:"err,omitempty"`
+	Chain string `json:"chain"` // the chain (own copy of the package directory) the generation belongs to
+	Seq   int    `json:"seq"`   // position in that chain
 }
 
 // step of a definition's generation history.
 type step struct {
-	State, Cfg, Prep string // Prep: remove|keep|long|short
+	State string `json:"state"`
+	Cfg   string `json:"cfg"`
+	Prep  string `json:"prep"` // remove|keep|long|short
 }
 
-// plan: `reps` regular generations alternating fresh / existing, then (if stale) the
-// stale-output sequence.
-func plan(j job, reps int, firstFresh bool, stale bool) []step {
+// regularPlan: `reps` generations alternating fresh / existing package states.
+func regularPlan(reps int, firstFresh bool) []step {
 	var st []step
 	for k := 0; k < reps; k++ {
 		if (k%2 == 0) == firstFresh {
@@ -590,9 +597,12 @@ func plan(j job, reps int, firstFresh bool, stale bool) []step {
 			st = append(st, step{"existing", "full", "keep"})
 		}
 	}
-	if !stale {
-		return st
-	}
+	return st
+}
+
+// stalePlan: the history over stale previous outputs (see the file comment).
+func stalePlan(j job) []step {
+	var st []step
 	if j.SubArgs != nil {
 		st = append(st,
 			step{"fresh", "sub", "remove"},
@@ -600,6 +610,8 @@ func plan(j job, reps int, firstFresh bool, stale bool) []step {
 			step{"stale-longer-output-of-superset", "sub", "keep"},
 			step{"stale-long-foreign-file", "sub", "long"},
 			step{"stale-minimal-file", "sub", "short"})
+	} else {
+		st = append(st, step{"fresh", "full", "remove"})
 	}
 	return append(st, step{"stale-long-foreign-file", "full", "long"}, step{"stale-minimal-file", "full", "short"})
 }
@@ -621,8 +633,8 @@ func prepare(j job, prep string) {
 }
 
 // record hashes the output and keeps one copy of every distinct output.
-func record(j job, mode string, st step, errText string) obs {
-	o := obs{Mode: mode, State: st.State, Cfg: st.Cfg, Sha: hashFile(outPath(j)), Err: errText}
+func record(j job, mode string, seq int, st step, errText string) obs {
+	o := obs{Mode: mode, State: st.State, Cfg: st.Cfg, Sha: hashFile(outPath(j)), Err: errText, Chain: j.Chain, Seq: seq}
 	if o.Sha != "" {
 		p := filepath.Join(j.Outs, st.Cfg+"-"+o.Sha)
 		if _, err := os.Stat(p); err != nil {
@@ -665,25 +677,23 @@ func errClass(err error) string {
 }
 
 // worker: the histories of all jobs, interleaved step by step, in this one process.
-func worker(jobsJSON string, reps int) {
+func worker(jobsJSON string) {
 	var jobs []job
 	must(json.Unmarshal([]byte(jobsJSON), &jobs))
 	res := make([][]obs, len(jobs))
-	plans := make([][]step, len(jobs))
 	longest := 0
-	for i, j := range jobs {
-		plans[i] = plan(j, reps, true, j.Stale)
-		longest = max(longest, len(plans[i]))
+	for _, j := range jobs {
+		longest = max(longest, len(j.Steps))
 	}
 	for k := 0; k < longest; k++ {
 		for i, j := range jobs {
-			if k >= len(plans[i]) {
+			if k >= len(j.Steps) {
 				continue
 			}
-			st := plans[i][k]
+			st := j.Steps[k]
 			prepare(j, st.Prep)
 			_, err := generateInProcess(j.Kind, j.Dir, "def.go", argsOf(j, st.Cfg))
-			res[i] = append(res[i], record(j, "inproc", st, errClass(err)))
+			res[i] = append(res[i], record(j, "inproc", k, st, errClass(err)))
 		}
 	}
 	must(json.NewEncoder(os.Stdout).Encode(res))
@@ -810,7 +820,7 @@ func main() {
 	jobsArg := flag.String("jobs", "", "internal: JSON jobs")
 	defsFile := flag.String("defs", "", "JSON list of definitions to run instead of random ones")
 	only := flag.String("only", "gsort,genum,gerror", "generators to draw definitions for")
-	staleInproc := flag.String("stale-inproc", "first", "which definitions get the stale-output sequence in-process too: first|all")
+	staleWhich := flag.String("stale", "first", "which definitions get the stale-output histories (one in-process, one through the CLI): first (index 0 of each stream)|all")
 	twinEvery := flag.Int("twin-every", 3, "draw a set of twin genum packages at every k-th index")
 	bins := map[string]*string{
 		"gsort":  flag.String("gsort", "", "gsort CLI"),
@@ -819,7 +829,7 @@ func main() {
 	}
 	flag.Parse()
 	if *isWorker {
-		worker(*jobsArg, *reps)
+		worker(*jobsArg)
 		return
 	}
 	r := gal.NewRand(*seed)
@@ -838,7 +848,7 @@ func main() {
 				ds = append(ds, tw...)
 			}
 			for _, d := range ds {
-				d.First = i == 0
+				d.First = i == 0 && d.Batch == ""
 				if strings.Contains(","+*only+",", ","+d.Gen+",") {
 					defs = append(defs, d)
 				}
@@ -862,17 +872,34 @@ func main() {
 	must(os.WriteFile(filepath.Join(*work, "go.sum"), sum, 0o644))
 	// gerror loads "../" next to the package: give the module root a package
 	must(os.WriteFile(filepath.Join(*work, "doc.go"), []byte("// Package farm is the root of the definition farm.\npackage farm\n\nimport (\n\t_ \"github.com/drshriveer/gtools/genum\"\n\t_ \"github.com/drshriveer/gtools/gerror\"\n)\n"), 0o644))
-	jobs := make([]job, len(defs))
-	for i := range defs {
+	// Every definition has up to four chains, each in its own copy of the package directory so
+	// that they can run concurrently: regular in-process (shared worker process per batch),
+	// regular CLI, and for the chosen definitions the stale-output history in-process and CLI.
+	type chain struct {
+		def  int
+		j    job
+		mode string
+	}
+	mkJob := func(i int, suffix string, steps func(job) []step) job {
 		d := &defs[i]
-		dir := filepath.Join(*work, d.Pkg)
+		dir := filepath.Join(*work, d.Pkg+suffix)
 		must(os.MkdirAll(dir, 0o755))
 		must(os.WriteFile(filepath.Join(dir, "def.go"), []byte(d.Source), 0o644))
-		args := append([]string{"-types", strings.Join(d.Types, ",")}, d.Opts...)
-		jobs[i] = job{Kind: d.Gen, Dir: dir, Pkg: d.Pkg, Args: args, Outs: filepath.Join(*work, "outs", d.Pkg),
-			Stale: *staleInproc == "all" || d.First}
+		j := job{Kind: d.Gen, Dir: dir, Pkg: d.Pkg, Args: append([]string{"-types", strings.Join(d.Types, ",")}, d.Opts...),
+			Outs: filepath.Join(*work, "outs", d.Pkg), Chain: "regular" + suffix}
 		if len(d.Types) >= 2 {
-			jobs[i].SubArgs = append([]string{"-types", d.Types[0]}, d.Opts...)
+			j.SubArgs = append([]string{"-types", d.Types[0]}, d.Opts...)
+		}
+		j.Steps = steps(j)
+		return j
+	}
+	regular := make([]job, len(defs))
+	var singles []chain // in-process stale chains (one worker process each) and all CLI chains
+	for i := range defs {
+		regular[i] = mkJob(i, "", func(job) []step { return regularPlan(*reps, true) })
+		singles = append(singles, chain{i, mkJob(i, "_c", func(job) []step { return regularPlan(*reps, false) }), "cli"})
+		if *staleWhich == "all" || defs[i].First {
+			singles = append(singles, chain{i, mkJob(i, "_is", stalePlan), "inproc"}, chain{i, mkJob(i, "_cs", stalePlan), "cli"})
 		}
 	}
 	// resolve the module graph once (writes go.mod/go.sum additions) before anything runs in parallel
@@ -881,7 +908,7 @@ func main() {
 		os.Exit(1)
 	}
 	all := make([][]obs, len(defs))
-	// (1) in one process: definitions of one batch (twin packages), else two neighbouring
+	// regular in-process batches: definitions of one batch (twin packages), else two neighbouring
 	// definitions (of different generators), share a worker process
 	var batches [][]int
 	for i := 0; i < len(defs); {
@@ -906,52 +933,52 @@ func main() {
 	sem := make(chan struct{}, 16)
 	var mu sync.Mutex
 	fail := ""
+	runWorker := func(idx []int, bj []job) {
+		defer wg.Done()
+		sem <- struct{}{}
+		defer func() { <-sem }()
+		jb, _ := json.Marshal(bj)
+		c := exec.Command(self, "-worker", "-jobs", string(jb))
+		var so, se bytes.Buffer
+		c.Stdout, c.Stderr = &so, &se
+		err := c.Run()
+		var res [][]obs
+		if err == nil {
+			err = json.Unmarshal(so.Bytes(), &res)
+		}
+		mu.Lock()
+		defer mu.Unlock()
+		if err != nil || len(res) != len(idx) {
+			fail += fmt.Sprintf("worker %v failed: %v\n%s\n", idx, err, se.String())
+			return
+		}
+		for k, i := range idx {
+			all[i] = append(all[i], res[k]...)
+		}
+	}
 	for _, idx := range batches {
+		bj := make([]job, len(idx))
+		for k, i := range idx {
+			bj[k] = regular[i]
+		}
 		wg.Add(1)
-		go func(idx []int) {
+		go runWorker(idx, bj)
+	}
+	for _, ch := range singles {
+		wg.Add(1)
+		if ch.mode == "inproc" {
+			go runWorker([]int{ch.def}, []job{ch.j})
+			continue
+		}
+		// separate processes: the real CLI, the way go:generate runs it
+		go func(ch chain) {
 			defer wg.Done()
 			sem <- struct{}{}
 			defer func() { <-sem }()
-			bj := make([]job, len(idx))
-			for k, i := range idx {
-				bj[k] = jobs[i]
-			}
-			jb, _ := json.Marshal(bj)
-			c := exec.Command(self, "-worker", "-jobs", string(jb), "-reps", strconv.Itoa(*reps))
-			var so, se bytes.Buffer
-			c.Stdout, c.Stderr = &so, &se
-			err := c.Run()
-			var res [][]obs
-			if err == nil {
-				err = json.Unmarshal(so.Bytes(), &res)
-			}
-			mu.Lock()
-			defer mu.Unlock()
-			if err != nil || len(res) != len(idx) {
-				fail += fmt.Sprintf("worker %v failed: %v\n%s\n", idx, err, se.String())
-				return
-			}
-			for k, i := range idx {
-				all[i] = append(all[i], res[k]...)
-			}
-		}(idx)
-	}
-	wg.Wait()
-	if fail != "" {
-		fmt.Fprintln(os.Stderr, fail)
-		os.Exit(1)
-	}
-	// (2) in separate processes: the real CLIs, sequential per definition, definitions in parallel
-	for i := range defs {
-		wg.Add(1)
-		go func(i int) {
-			defer wg.Done()
-			sem <- struct{}{}
-			defer func() { <-sem }()
-			j := jobs[i]
-			for _, st := range plan(j, *reps, false, true) {
+			j := ch.j
+			for k, st := range j.Steps {
 				prepare(j, st.Prep)
-				rc, log := runCmd(j.Dir, []string{"GOFILE=def.go", "PWD=" + j.Dir, "GOPACKAGE=" + defs[i].Pkg}, *bins[j.Kind], argsOf(j, st.Cfg)...)
+				rc, log := runCmd(j.Dir, []string{"GOFILE=def.go", "PWD=" + j.Dir, "GOPACKAGE=" + j.Pkg}, *bins[j.Kind], argsOf(j, st.Cfg)...)
 				errText := ""
 				if rc != 0 {
 					lines := strings.Split(strings.TrimSpace(log), "\n")
@@ -964,14 +991,31 @@ func main() {
 						errText = errText[:160]
 					}
 				}
-				o := record(j, "cli", st, errText)
+				o := record(j, "cli", k, st, errText)
 				mu.Lock()
-				all[i] = append(all[i], o)
+				all[ch.def] = append(all[ch.def], o)
 				mu.Unlock()
 			}
-		}(i)
+		}(ch)
 	}
 	wg.Wait()
+	if fail != "" {
+		fmt.Fprintln(os.Stderr, fail)
+		os.Exit(1)
+	}
+	jobs := regular
+	for i := range all {
+		sort.SliceStable(all[i], func(a, b int) bool {
+			x, y := all[i][a], all[i][b]
+			if x.Mode != y.Mode {
+				return x.Mode > y.Mode // inproc before cli
+			}
+			if x.Chain != y.Chain {
+				return x.Chain < y.Chain
+			}
+			return x.Seq < y.Seq
+		})
+	}
 	// distinct outputs per definition and configuration
 	outputsOf := func(i int, cfg string) map[string]string {
 		m := map[string]string{}
